@@ -63,3 +63,35 @@ def clauses (o : Obs) : List (String × Bool) :=
 def holds (o : Obs) : Bool := (clauses o).all (·.2)
 
 end CV.C06.SpecS
+
+/-!
+# round 8b — the views through the RPC layer (suite `rpc`, case kind `tp`)
+
+From the statement: "the status of a CID shows each allocated peer with its own report" and the per-peer views are
+"the per-CID status and the status listing" — whichever entry point serves them. For ONE peer that is the only
+cluster member, every route to its views (the `Cluster` RPC service used by the REST API, the `PinTracker` RPC
+service used by other members, the cluster-wide listing and per-CID status built from the latter) must show the
+same per-CID status and, for every filter, the same listing. The views themselves (read through
+`Cluster.StatusLocal` / `Cluster.StatusAllLocal`) are judged by the tracker Spec (`CV.C06.clauses`).
+-/
+namespace CV.C06.SpecH
+
+structure Obs where
+  each : List (Nat × Nat)                  -- Cluster.StatusLocal(cid), every cid
+  lists : List (Nat × List (Nat × Nat))    -- Cluster.StatusAllLocal(f)
+  pEach : List (Nat × Nat)                 -- PinTracker.Status(cid), called by another peer
+  pLists : List (Nat × List (Nat × Nat))   -- PinTracker.StatusAll(f), called by another peer
+  gEach : List (Nat × Nat)                 -- Cluster.Status(cid), only cids allocated to this peer alone / everywhere
+  gLists : List (Nat × List (Nat × Nat))   -- Cluster.StatusAll(f), each entry flattened to this peer's status
+  closed : Bool                            -- another peer is refused the Cluster-level endpoint
+
+def clauses (o : Obs) : List (String × Bool) :=
+  [ ("hop_tracker_status", o.pEach == o.each),
+    ("hop_tracker_listing", o.pLists == o.lists),
+    ("hop_cluster_listing", o.gLists == o.lists),
+    ("hop_cluster_status", o.gEach.all (fun e => o.each.contains e)),
+    ("hop_closed_to_peers", o.closed) ]
+
+def holds (o : Obs) : Bool := (clauses o).all (·.2)
+
+end CV.C06.SpecH
